@@ -63,8 +63,13 @@ Definition spec_pids (t : list kproc) : list Z := zsort (listing t).
 
 (* the info dict demanded by attrs=l: exactly those names; every name when l is empty *)
 Definition spec_keys (valid l : list Z) : list Z :=
-  zsort (match nodup Z.eq_dec l with [] => valid | _ => nodup Z.eq_dec l end).
+  zsort (filter (fun a => negb (unimpl a)) (match nodup Z.eq_dec l with [] => valid | _ => nodup Z.eq_dec l end)).
 Definition attrs_valid (valid l : list Z) : bool := forallb (fun a => zmem a valid) l.
+(* the only ways next() may fail because of its attrs argument *)
+Definition exc_reason (valid l : list Z) (e : exn) : Prop :=
+  (e = TypeError /\ zmem BADTYPE l = true)
+  \/ (e = ValueError /\ attrs_valid valid l = false)
+  \/ (e = NotImplementedError /\ explicit_ni l = true).
 
 (* one yield: (pid, object token, keys of the info dict) *)
 Definition ytriple := (Z * nat * option (list Z))%type.
